@@ -191,6 +191,11 @@ theorem abs_eq (z x : Dec) (same : Bool) :
       { Decimal.set z x same with neg := (Gen.Facts.Abs (Decimal.set z x same).neg z.neg).zNeg } :=
   GenConv.abs_eq z x same
 
+/-- `MinPrec` as regenerated (wrapping uint arithmetic) is the model's `minPrec`. -/
+theorem minPrec_eq (x : Dec) (hlen : x.len < 1099511627776) (htz : trailingZeros x.mant ≤ x.len * 19) :
+    Gen.Facts.MinPrec x.form.toNat x.len (trailingZeros x.mant) = minPrec x :=
+  GenConv.minPrec_eq x hlen htz
+
 /-- `SetInt64(x)` hands `(x < 0, |x|, 0)` to `setBits64` for every int64, `math.MinInt64` included. -/
 theorem setInt64_args (x : Int) (h1 : -9223372036854775808 ≤ x) (h2 : x ≤ 9223372036854775807) :
     Gen.Facts.SetInt64 x =
@@ -238,6 +243,7 @@ private def same (a b : Except String WDec) : Bool := toString (repr a) == toStr
 #print axioms int64_eq
 #print axioms uint64_eq
 #print axioms abs_eq
+#print axioms minPrec_eq
 #print axioms fma_eq
 #print axioms sqrt_eq
 #print axioms gobDecode_eq
